@@ -49,6 +49,8 @@ type Store struct {
 	calls  int   // storage calls of the current incarnation so far (attempted)
 	dieAt  int   // die at ENTRY of this call number (0 = never)
 	OnCall func(CallRec)
+	// BlockDead: storage calls of a dead incarnation never return (instead of failing)
+	BlockDead bool
 	OnDie  func(inc, atCall int)
 }
 
@@ -165,10 +167,15 @@ func (s *Store) enter(inc int) bool {
 
 func (s *Store) apply(inc int, ops []*storage.Operation) error {
 	s.mu.Lock()
-	defer s.mu.Unlock()
 	if !s.enter(inc) {
+		block := s.BlockDead
+		s.mu.Unlock()
+		if block {
+			select {} // a dead process does nothing any more: its goroutines simply stop here
+		}
 		return ErrDead
 	}
+	defer s.mu.Unlock()
 	recs := make([]OpRec, 0, len(ops))
 	for _, op := range ops {
 		switch op.Type {
